@@ -7,6 +7,7 @@ import (
 	"errors"
 	"fmt"
 	"math"
+	"runtime"
 	"sort"
 	"strconv"
 	"strings"
@@ -1053,6 +1054,13 @@ func opTimePasses(h *Hist) {
 	h.tracef("%v pass", d)
 	simrt.Sleep(d)
 	h.counters["probe:time-passes"]++
+	if h.d.Draw("collect-garbage", 4) == 0 {
+		// two collections empty every sync.Pool (primary and victim cache) and make unreachable containers eligible for
+		// finalizers; what the library recycles must not be something a live container still uses
+		runtime.GC()
+		runtime.GC()
+		h.counters["probe:garbage-collected"]++
+	}
 	h.heapCheck()
 }
 
